@@ -9,7 +9,7 @@
 From Typ Require Export Sets.Iface.
 Local Open Scope Z_scope.
 
-Definition mapset := gset Z.
+Notation mapset := (gset Z) (only parsing).
 
 (* the values "for v := range s" reaches when the runtime iterates in [order] *)
 Definition ms_iter (s : mapset) (order : list Z) : list Z := base.filter (λ v, v ∈ s) order.
